@@ -32,16 +32,35 @@ def _rebind(orig, wrapped):
     return n
 
 
+def _snapshot(v):
+    import numpy as np
+
+    if isinstance(v, np.ndarray) and v.size <= 4096:
+        return v.copy()
+    if isinstance(v, list):
+        return [_snapshot(x) for x in v]
+    return v
+
+
 def own_wrapper(orig, cond):
     sig = inspect.signature(orig)
 
+    first = next(iter(sig.parameters))
+
     @functools.wraps(orig)
     def wrapper(*args, **kwargs):
-        result = orig(*args, **kwargs)
+        # snapshot the small arguments BEFORE the call (the library may modify e.g. a caller-supplied `dim` array in place;
+        # the post-condition must see what was passed, not what is left)
         try:
             ba = sig.bind(*args, **kwargs)
             ba.apply_defaults()
-            cond(result=result, **ba.arguments)
+            pre = {k: _snapshot(v) if k != first else v for k, v in ba.arguments.items()}
+        except TypeError:
+            pre = None
+        result = orig(*args, **kwargs)
+        try:
+            if pre is not None:
+                cond(result=result, **pre)
         except Exception:  # noqa: BLE001 - a bug in the monitor must never change the observed execution
             from . import contracts
 
